@@ -43,8 +43,17 @@ fn main() {
             let lines: Vec<&str> = text.lines().filter(|l| !l.is_empty() && !l.starts_with('#')).collect();
             let mut out = String::new();
             let mut start = 0usize;
+            let mut timeouts = 0usize;
             let exe = std::env::current_exe().unwrap();
             while start < lines.len() {
+                if timeouts >= 3 {
+                    // three cases already failed to terminate: do not spend the run's time budget on the rest
+                    for l in &lines[start..] {
+                        let id = l.split(' ').next().unwrap_or("?");
+                        out.push_str(&format!("{} not-run after-timeouts\n", id));
+                    }
+                    break;
+                }
                 let chunk = std::env::temp_dir().join(format!("mila-harness-{}-{}.cases", std::process::id(), start));
                 let chunk_out = chunk.with_extension("out");
                 std::fs::write(&chunk, lines[start..].join("\n") + "\n").unwrap();
@@ -53,7 +62,7 @@ fn main() {
                     .args(["run-stream", &args[2], chunk.to_str().unwrap(), chunk_out.to_str().unwrap()])
                     .spawn()
                     .unwrap();
-                // watchdog: a case that produces no output line for 20 s is killed and recorded as `timeout`
+                // watchdog: a case that produces no output line for 10 s is killed and recorded as `timeout`
                 let mut last_len = 0u64;
                 let mut last_change = std::time::Instant::now();
                 let mut timed_out = false;
@@ -66,7 +75,7 @@ fn main() {
                     if len != last_len {
                         last_len = len;
                         last_change = std::time::Instant::now();
-                    } else if last_change.elapsed().as_secs() >= 20 {
+                    } else if last_change.elapsed().as_secs() >= 10 {
                         let _ = child.kill();
                         timed_out = true;
                         break child.wait().unwrap();
@@ -87,6 +96,9 @@ fn main() {
                 if start < lines.len() {
                     // the child died while running lines[start]
                     let id = lines[start].split(' ').next().unwrap_or("?");
+                    if timed_out {
+                        timeouts += 1;
+                    }
                     out.push_str(&format!("{} {}\n", id, if timed_out { "timeout" } else { "abort" }));
                     start += 1;
                 }
